@@ -911,7 +911,7 @@ pub fn direct_parsers(inputs: &[String]) -> Vec<(String, String, String)> {
                     _ => {
                         let vm = VM::new();
                         let prev = sim_io::install(Box::new(Null(0)));
-                        let _ = p.3.parse(&vm, text);
+                        let _ = crate::multi::print_with(&p.3, &vm, text);
                         let _ = sim_io::uninstall();
                         if let Some(c) = prev {
                             sim_io::install(c);
